@@ -52,8 +52,8 @@ def check(run):
     binary = run.build_harness()
     max_dfs, n_random = (40000, 20000) if thorough else (600, 600)
     tot = collections.Counter()
-    with concurrent.futures.ThreadPoolExecutor(max_workers=7) as pool:
-        results = [f.result() for f in [pool.submit(sched_job, run, binary, sc, max_dfs, n_random) for sc in range(7)]]
+    with concurrent.futures.ThreadPoolExecutor(max_workers=9) as pool:
+        results = [f.result() for f in [pool.submit(sched_job, run, binary, sc, max_dfs, n_random) for sc in range(9)]]
     cfgtext = open(os.path.join(core.SPEC, "Idempotency_Trace.cfg")).read()
     for trace, t, viol, tag in results:
         for v in viol:
@@ -72,12 +72,12 @@ def check(run):
     run.evaluations = tot["traces"]
     run.traces = tot["accepted"]
     run.nontrivial = tot["keys_answered_more_than_once"]
-    run.exhaustive = tot["exhausted"] == 7
+    run.exhaustive = tot["exhausted"] == 9
     run.rule = ("(a) exhaustive TLC check of Idempotency.tla (3 requests, 2 keys, every fault position) and of MemoryLock.tla at the grain of its two mutexes "
                 "(3 processes x 2 rounds), plus a mutant Locker that must violate AtMostOnce; (b) 7 scenarios of 3-4 duplicate / distinct-key requests "
                 "(handler errors, lookup and lock faults, late duplicates) explored with the gate scheduler on the real middleware + real MemoryLock "
                 "(DFS prefix + seeded random schedules where the space is too large), every execution validated by TLC against Idempotency.tla with "
-                "AtMostOnce / SameAnswer / FaultMeansNoRun / MutexPerKey at every step; responses of answered duplicates are compared byte for byte "
+                "AtMostOnce / SameAnswer / FaultMeansNoRun / MutexPerKey / BypassUnaffected at every step; responses of answered duplicates are compared byte for byte "
                 "(status, body incl. empty, multi-valued kept headers, cookies). Non-trivial = executions in which a key was answered more than once.")
     run.extra.update(dict(tot))
     run.extra["violations_by_check"] = dict(collections.Counter(v["check"] for v in run.violations))
